@@ -17,4 +17,5 @@ use std::num::ParseIntError;
 //@verify visitor.bytes
 //@verify visitor.relation
 //@verify visitor.calc
+//@verify visitor.expr
 //@include prelude/tail_std.rs
